@@ -214,6 +214,12 @@ def points(tier: str) -> List[Dict[str, Any]]:
         for age in (999, 1000, 1001, 5000):
             for j in (range(20, 121) if (tier != "quick" or age in (999, 5000)) else (20, 70, 120)):
                 pts.append({"fam": "single", "kind": kind, "age": age, "draw": j})
+    # a neighbour multicast *sibling* records (same name, type and class, other rdata: another instance of the type, another
+    # address of the host name, another target) a moment before the query: that is no sighting of the host's own records
+    for kind in kinds1:
+        for j in (20, 120):
+            for sib in (200, 900):
+                pts.append({"fam": "single", "kind": kind, "age": 5000, "draw": j, "sibling_ms": sib})
     for kind in ("ptrB",):
         for age in (700, 774, 776, 999, 1001, 1224, 1226, 3000):
             for j in (20, 120):
@@ -353,6 +359,12 @@ def _run_point(p: Dict[str, Any], verbose: bool = False) -> Tuple[Optional[Dict[
                     moved = Svc(S3.type, S3.name, "h9.local.", S3.port, S3.text, [bytes([10, 0, 0, 9])], [])
                 w.loop.call_at((t_begin + p["update_after"]) / 1000,
                                lambda: w.spawn(host.zc.async_update_service(make_info(moved, None))))
+            if p.get("sibling_ms"):
+                sib = [("PTR", TA, 1, 4500, "neighbour._a._tcp.local."), ("PTR", TB, 1, 4500, "nb._b._tcp.local."),
+                       ("A", S1.server, 1, 120, bytes([10, 0, 0, 201])), ("A", S3.server, 1, 120, bytes([10, 0, 0, 203])),
+                       ("AAAA", S3.server, 1, 120, bytes.fromhex("fe8000000000000000000000000000cc")),
+                       ("SRV", S1.name, 1, 120, 0, 0, 9999, "elsewhere.local."), ("TXT", S1.name, 1, 4500, b"\x05other")]
+                script.append((t_begin - p["sibling_ms"], wire.response(sib), "10.0.0.77"))
             drive(w, host, script, t + 2500)
             floor = None
             if fam == "single":
